@@ -253,7 +253,7 @@ from pyvc import library
 from wntr.epanet.io import InpFile
 from wntr.epanet.util import FlowUnits, MassUnits
 from wntr.network import LinkStatus
-from wntr.network.elements import Junction, Tank, Reservoir, Pipe, PRValve, PSValve, PBValve, FCValve, TCValve
+from wntr.network.elements import Junction, Tank, Reservoir, Pipe, Valve, PRValve, PSValve, PBValve, FCValve, TCValve
 
 from pyvc.values import real_val
 Rr = library.as_real
@@ -286,7 +286,7 @@ class WnW(NativeModel):
     tank_name_list = property(lambda s: s._names(s.nodes, Tank))
     reservoir_name_list = property(lambda s: s._names(s.nodes, Reservoir))
     pipe_name_list = property(lambda s: s._names(s.links, Pipe))
-    valve_name_list = property(lambda s: s._names(s.links, PRValve, PSValve, PBValve, FCValve, TCValve))
+    valve_name_list = property(lambda s: s._names(s.links, Valve))
     pump_name_list = property(lambda s: list(getattr(s, "pumps_", [])))
 
 
@@ -774,6 +774,116 @@ def _curve_case(units, ctype):
             for i, (t, (x, y)) in enumerate(zip(lines, pts)):
                 posts.append(("point_%d_x_written_in_the_unit_epanet_expects_for_this_curve_type" % i, _within(Rr(t[1]) * real_val(kx), Rr(x))))
                 posts.append(("point_%d_y_written_in_the_unit_epanet_expects_for_this_curve_type" % i, _within(Rr(t[2]) * real_val(ky), Rr(y))))
+            return posts
+        cx.ensure(post)
+    return Case("%s,%s" % (units.name, ctype), build, crosscheck=False)
+
+
+# ---------------------------------------------------------------------------- [CURVES] read back through the section that uses the curve
+
+class _AnyReg(NativeModel):
+    """a curve registry that answers every name with the one curve (or None)"""
+
+    def __init__(self, value):
+        self.value = value
+
+    def __getitem__(self, key):
+        return self.value if key is not None else None
+
+    def __setitem__(self, key, value):
+        pass
+
+
+def _curve_pair_call(element_writer, element_reader, section, inpw, inpr, wnw):
+    f = FileStub()
+    InpFile._write_curves(inpw, f, wnw)
+    inpr.sections["[CURVES]"] = [(i + 1, ln) for i, ln in enumerate(f.lines)]
+    InpFile._read_curves(inpr)
+    g = FileStub()
+    element_writer(inpw, g, wnw)
+    inpr.sections[section] = [(i + 1, ln) for i, ln in enumerate(g.lines)]
+    element_reader(inpr)
+    return len(f.lines), len(g.lines)
+
+
+def _curve_pair_case(units, ctype):
+    """a curve comes back, through the section whose element uses it, with the points it was written with: the [CURVES] writer and each consuming
+    reader agree on the unit of both coordinates (what the writer tells EPANET is the [CURVES] contract above)"""
+    def build(cx):
+        from wntr.network.elements import HeadPump, PowerPump, GPValve
+        cn, en, n1, n2 = cx.name("curve"), cx.name("element"), cx.name("node1"), cx.name("node2")
+        from pyvc.values import name_const
+        cx.assume(cx.t(cn) != name_const("*"))       # requires: '*' is the [TANKS] placeholder for "no curve", not a curve name
+        pts = [(cx.real("x%d" % i), cx.real("y%d" % i)) for i in range(2)]
+        curve = _Bag(curve_type=ctype, points=list(pts), name=cn)
+        a, b = SymObj(Junction, dict(_name=n1)), SymObj(Junction, dict(_name=n2))
+        added = []
+
+        class WR(NativeModel):
+            def __init__(self):
+                self.calls, self.links, self.curve_name_list = [], {}, []
+                self.curves = _AnyReg(None)
+                self.pump_name_list = []
+                self.options = types.SimpleNamespace(energy=_Bag(global_efficiency=None, global_price=None, demand_charge=None, global_pattern=None),
+                                                     hydraulic=types.SimpleNamespace(headloss="H-W", pattern=None))
+
+            def add_curve(self, name, typ, points):
+                added.append((name, typ, list(points)))
+                self.curve_name_list.append(name)
+
+            def get_curve(self, name):
+                return types.SimpleNamespace(name=name) if added else None
+
+            def get_pattern(self, name):
+                return _Pat(name)
+
+            def __getattr__(self, nm):
+                if nm.startswith("add_"):
+                    return lambda *a_, **k_: self.calls.append((nm, a_, k_))
+                raise AttributeError(nm)
+        wnr = WR()
+        if ctype == "HEAD":
+            from wntr.network.elements import TimeSeries
+            ts = SymObj(TimeSeries, dict(_base=1.0, _pattern=None, _category=None, _pattern_reg=_PatReg(None)))
+            el = SymObj(HeadPump, dict(_link_name=en, _start_node=a, _end_node=b, _speed_timeseries=ts, _pump_curve_name=cn))
+            wnw = WnW()
+            wnw.links[en] = el
+            wnw.pumps_ = [en]
+            pair = (InpFile._write_pumps, InpFile._read_pumps, "[PUMPS]")
+        elif ctype == "VOLUME":
+            vals = {k: cx.real(k) for k in ("elevation", "init_level", "min_level", "max_level", "diameter", "min_vol")}
+            el = SymObj(Tank, dict(_name=en, _elevation=vals["elevation"], _init_level=vals["init_level"], _min_level=vals["min_level"], _max_level=vals["max_level"],
+                                   _diameter=vals["diameter"], _min_vol=vals["min_vol"], _vol_curve_name=cn, _overflow=False, _curve_reg=_AnyReg(curve)))
+            wnw = WnW()
+            wnw.nodes[en] = el
+            pair = (InpFile._write_tanks, InpFile._read_tanks, "[TANKS]")
+        elif ctype == "HEADLOSS":
+            el = SymObj(GPValve, dict(_link_name=en, _start_node=a, _end_node=b, diameter=cx.real("diameter"), minor_loss=cx.real("minor_loss"), _initial_setting=0.0,
+                                      _headloss_curve_name=cn))
+            wnw = WnW()
+            wnw.links[en] = el
+            pair = (InpFile._write_valves, InpFile._read_valves, "[VALVES]")
+        else:
+            el = SymObj(PowerPump, dict(_link_name=en, _efficiency=curve, _energy_price=None, _energy_pattern=None))
+            elr = SymObj(PowerPump, dict(_link_name=en, _efficiency=None, _energy_price=None, _energy_pattern=None))
+            wnw = _WnE(links={en: el}, energy=_Bag(global_efficiency=None, global_price=None, demand_charge=None, global_pattern=None), pumps=[en])
+            wnr.links = {en: elr}
+            wnr.pump_name_list = [en]
+            pair = (InpFile._write_energy, InpFile._read_energy, "[ENERGY]")
+        wnw.curve_name_list = [cn]
+        wnw.get_curve = lambda n: curve
+        cx.target(_curve_pair_call, pair[0], pair[1], pair[2], _inp(units, wnw), _inp(units, wnr), wnw)
+
+        def post(out):
+            if not out.returned:
+                return []
+            posts = [("a_type_comment_two_curve_lines_and_one_element_line", out.value == (3, 1)),
+                     ("the_curve_is_created_once_with_its_type", len(added) == 1 and added[0][1] == ctype and isinstance(added[0][0], SV) and added[0][0].t.eq(cn.t))]
+            if len(added) != 1 or len(added[0][2]) != 2:
+                return posts + [("both_points_read_back", False)]
+            for i, ((gx, gy), (x, y)) in enumerate(zip(added[0][2], pts)):
+                posts.append(("point_%d_x_round_trips_in_the_unit_of_this_curve_type" % i, _eqn(gx, x)))
+                posts.append(("point_%d_y_round_trips_in_the_unit_of_this_curve_type" % i, _eqn(gy, y)))
             return posts
         cx.ensure(post)
     return Case("%s,%s" % (units.name, ctype), build, crosscheck=False)
@@ -1340,6 +1450,9 @@ CONTRACTS = [
              interpret_always=(_roundtrip_call,), models=_token_models, trusted=_pair_trust),
     Contract("wntr.epanet.io:InpFile._write_demands/_read_demands", P + ["C01"], [_demands_case(u, n_, wp, wc) for u in _U for (n_, wp, wc) in ((2, True, True), (2, False, False), (1, True, True), (3, True, False))],
              interpret_always=(_roundtrip_call,), models=_token_models, trusted=_pair_trust),
+    Contract("wntr.epanet.io:InpFile._write_curves/_read_curves + the section that uses the curve", P + ["C03"],
+             [_curve_pair_case(u, t) for u in _U for t in ("HEAD", "VOLUME", "HEADLOSS", "EFFICIENCY")], interpret_always=(_curve_pair_call,), models=_token_models,
+             trusted=_pair_trust + ["token model applied to '{:12f}' (six decimals of curve points): text round-off is decided in the bounded layer only"]),
     Contract("wntr.epanet.io:InpFile._write_valves/_read_valves", P, [_valve_case(u, c) for u in _U for c in (PRValve, PSValve, PBValve, FCValve, TCValve)],
              interpret_always=(_roundtrip_call,), trusted=_pair_trust),
 ]
